@@ -85,7 +85,8 @@ def run(only=None):
             if meta.get('harmless'):
                 # behaviour-preserving refactoring: no check that depends on the file may raise an alarm
                 f = meta.get('file') or ''
-                deps = (['C01', 'C02', 'C05', 'C07'] if f.startswith('src/util/date') or f.endswith('leap.rs') else
+                deps = (['C11'] if f == 'src/util/format.rs' else
+                        ['C01', 'C02', 'C05', 'C07'] if f.startswith('src/util/date') or f.endswith('leap.rs') else
                         ['C03', 'C06', 'C09'] if f.startswith('src/util/time') else
                         ['C10', 'C15'] if f.endswith('offset.rs') else
                         ['C03', 'C04'] if f == 'src/date.rs' else
